@@ -449,19 +449,39 @@ Proof.
     + intros a b Hab. apply up_downward. exact Hab.
 Qed.
 
-Lemma wrap_view_correct o v :
-  ksorted v -> iterate (wrap false (mkcur v CInv) o) = Some (range_query v o).
+Lemma wrap_view_correct_fuel o v fuel :
+  ksorted v -> (length v < fuel)%nat ->
+  run_iter fuel (wrap false (mkcur v CInv) o) = Some (range_query v o).
 Proof.
-  intro Hs. unfold iterate, wrap, range_query. destruct (o_offset o <? 0) eqn:Hoff.
-  - cbn [run_iter w_cur c_view]. unfold w_valid. cbn [w_opts]. now rewrite Hoff.
+  intros Hs Hfuel. unfold wrap, range_query. destruct (o_offset o <? 0) eqn:Hoff.
+  - destruct fuel as [|f]; [lia|]. cbn [run_iter]. unfold w_valid. cbn [w_opts]. now rewrite Hoff.
   - apply Z.ltb_ge in Hoff.
     pose proof (start_position o (mkcur v CInv) Hs) as (Hv & Hwf & Hstart).
     set (c1 := init_seek false o (mkcur v CInv)) in *. simpl in Hv.
     destruct (skip_offset_spec o (Z.to_nat (o_offset o)) c1 Hoff Hwf) as (c' & H1 & Hwf' & Hv' & Hrem).
-    rewrite H1. cbn [w_cur].
+    rewrite H1.
     rewrite (run_walk o (rem (o_reverse o) c')); auto.
     + rewrite Hrem, walk_skipw, Hstart. unfold limit. rewrite Z.sub_0_r. simpl. reflexivity.
-    + pose proof (rem_length (o_reverse o) c' Hwf'). lia.
+    + pose proof (rem_length (o_reverse o) c' Hwf'). rewrite Hv', Hv in H. lia.
+Qed.
+
+Lemma wrap_view_cursor_view legacy o c : c_view (w_cur (wrap legacy c o)) = c_view c.
+Proof.
+  assert (Hi : forall c, c_view (init_seek legacy o c) = c_view c).
+  { intro c0. unfold init_seek, key_cmp.
+    destruct (o_reverse o), (o_min o), (o_max o); simpl;
+      repeat match goal with |- context [if ?b then _ else _] => destruct b; simpl end;
+      repeat match goal with |- context [match ?x with _ => _ end] => destruct x; simpl end; reflexivity. }
+  assert (Hk : forall n w, c_view (w_cur (skip_offset n w)) = c_view (w_cur w)).
+  { induction n as [|n IH]; intro w; simpl; auto. destruct (w_valid w); auto. rewrite IH. simpl.
+    destruct (o_reverse (w_opts w)); reflexivity. }
+  unfold wrap. destruct (o_offset o <? 0); simpl; auto. rewrite Hk. simpl. apply Hi.
+Qed.
+
+Lemma wrap_view_correct o v :
+  ksorted v -> iterate (wrap false (mkcur v CInv) o) = Some (range_query v o).
+Proof.
+  intro Hs. unfold iterate. rewrite wrap_view_cursor_view. cbn [c_view]. apply wrap_view_correct_fuel; auto.
 Qed.
 
 (* ---------- engines that clamp the cursor to the bounds see the same range ---------- *)
